@@ -152,8 +152,13 @@ class NumKernel(BaseKernel):
     """Floating point interpretation on the real numpy."""
     mode = "num"
 
-    def __init__(self, repo, point=None, seed=0, rtol=1e-9, atol=1e-10):
+    def __init__(self, repo, point=None, seed=0, rtol=1e-9, atol=1e-10, typed=None):
         super().__init__(repo)
+        # typed == "int": every number handed to the code is a Python int (arrays of them are integer arrays).  The properties
+        # quantify over numbers, not over their machine representation: 2 and 2.0 are the same input.
+        self.typed = typed
+        self._groups = {}
+        self._group_seed = seed
         self.point = dict(point) if point else {}
         self.given = point is not None
         self.rng = random.Random(seed)
@@ -173,11 +178,32 @@ class NumKernel(BaseKernel):
             v = 0.0
         else:
             v = sampler()
+        if self._int_typed(name) and not isinstance(v, int):
+            v = int(round(v))
         self.draws[name] = v
         return v
 
+    def _int_typed(self, name):
+        """typed == "int": per GROUP of names (one vector / matrix / translation / quaternion = one group) either every member is a
+        Python int, or the group is drawn as ordinary floats -- so that integer arrays meet float arrays."""
+        if self.typed != "int":
+            return False
+        if name.startswith(("chi2_", "e_", "J_", "g_", "h_", "dx")):
+            return False        # values standing for RESULTS of cut code (edge contributions, solver output): floats, as the code produces them
+        import re
+        key = re.sub(r"[\d_]+$", "", re.sub(r"(\.q)[xyzw]$", r"\1", name))
+        if key not in self._groups:
+            if self.given:
+                grp = [v for n, v in self.point.items() if re.sub(r"[\d_]+$", "", re.sub(r"(\.q)[xyzw]$", r"\1", n)) == key]
+                self._groups[key] = bool(grp) and all(isinstance(v, int) and not isinstance(v, bool) for v in grp)
+            else:
+                self._groups[key] = random.Random("%s|%s" % (key, self._group_seed)).random() < 0.65
+        return self._groups[key]
+
     def real(self, name):
         def s():
+            if self._int_typed(name):
+                return self.rng.randint(-4, 4)
             u = self.rng.random()
             if u < 0.08:
                 return 0.0
@@ -188,16 +214,25 @@ class NumKernel(BaseKernel):
         return self._get(name, s)
 
     def pos(self, name):
+        if self._int_typed(name):
+            return self._get(name, lambda: self.rng.randint(1, 5))
         return self._get(name, lambda: math.exp(self.rng.uniform(-3, 3)))
 
     def nonneg(self, name):
+        if self._int_typed(name):
+            return self._get(name, lambda: self.rng.randint(0, 4))
         return self._get(name, lambda: 0.0 if self.rng.random() < 0.1 else math.exp(self.rng.uniform(-3, 3)))
 
     def small(self, name, bound):
+        if self._int_typed(name):
+            b = int(math.floor(bound))
+            return self._get(name, lambda: self.rng.randint(-b, b))
         return self._get(name, lambda: self.rng.uniform(-bound, bound))
 
     def angle(self, name):
         def s():
+            if self._int_typed(name):
+                return self.rng.randint(-7, 7)
             u = self.rng.random()
             if u < 0.1:
                 return self.rng.choice([-1, 1]) * (math.pi - self.rng.random() * 1e-3)
@@ -217,6 +252,12 @@ class NumKernel(BaseKernel):
             return [self.draws[n] for n in names]
         if all(n in self.point for n in names):
             q = [self.point[n] for n in names]
+        elif self._int_typed(names[0]):
+            q = [0, 0, 0, 0]
+            q[self.rng.randrange(4)] = self.rng.choice([1, -1])
+            for nm, v in zip(names, q):
+                self.draws[nm] = v
+            return q
         else:
             u = self.rng.random()
             if u < 0.07:
@@ -233,6 +274,11 @@ class NumKernel(BaseKernel):
             q = [x / n for x in q]
             if n == 1.0 and not any(q):
                 q = [0.0, 0.0, 0.0, 1.0]
+        if self._int_typed(names[0]):
+            q = [int(round(x)) for x in q]
+            for nm, v in zip(names, q):
+                self.draws[nm] = v
+            return q
         n = math.sqrt(sum(x * x for x in q))
         q = [x / n for x in q]
         for nm, v in zip(names, q):
@@ -244,7 +290,7 @@ class NumKernel(BaseKernel):
 
     def number_token(self, name, style=0):
         """(value, text): a number and a text of it that float() reads back exactly (varied but exact formats)."""
-        v = self.real(name)
+        v = float(self.real(name))
         styles = [repr, lambda x: "%.17e" % x, lambda x: "%+.17g" % x, lambda x: ("%.17E" % x), lambda x: repr(x).upper() if "e" in repr(x) else repr(x)]
         txt = styles[style % len(styles)](float(v))
         if float(txt) != float(v):
@@ -257,6 +303,11 @@ class NumKernel(BaseKernel):
     def spd_matrix(self, name, n):
         names = [["%s_%d_%d" % (name, min(i, j), max(i, j)) for j in range(n)] for i in range(n)]
         flat = {nm for row in names for nm in row}
+        if self._int_typed(names[0][0]) and not all(nm in self.point or nm in self.draws for nm in flat):
+            L = [[(self.rng.randint(1, 3) if j == i else self.rng.randint(-2, 2)) if j <= i else 0 for j in range(n)] for i in range(n)]
+            for i in range(n):
+                for j in range(i, n):
+                    self.draws.setdefault(names[i][j], sum(L[i][t] * L[j][t] for t in range(n)))
         if not all(nm in self.point or nm in self.draws for nm in flat):
             L = [[self.rng.gauss(0, 1) if j <= i else 0.0 for j in range(n)] for i in range(n)]
             scale = math.exp(self.rng.uniform(-1, 2))
